@@ -2,7 +2,7 @@
    The 7-significant-digit rendering of the number is not modelled: a row carries the exact value
    to be shown and the text that follows the number field.  No proofs here. *)
 From Coq Require Import String Ascii List Bool ZArith QArith Arith.
-From DL Require Import Lib.Val Lib.PyDict Decay.ChainDict Dec.Tables.
+From DL Require Import Lib.Val Lib.PyDict Decay.ChainDict Dec.Tables Dec.Num Dec.Fmt7.
 Import ListNotations.
 Close Scope Q_scope.
 Open Scope string_scope.
@@ -72,8 +72,14 @@ Definition print_rows (o : popts) (tbl : option (list pline)) : pres :=
       end
   end.
 
+(* the number as "{:.7g}" prints it: of the exact value, and of the value moved by 2^-46 relatively either way (the printed
+   float differs from the exact value by a few units in the last place: float(literal), the sum, the division) *)
+Definition eps46 : Q := 1 # (2 ^ 46).
+Definition g7_candidates (q : Q) : list string :=
+  [fmt_g7 q; fmt_g7 (Qred (q * (1 - eps46))); fmt_g7 (Qred (q * (1 + eps46)))].
+
 Definition vpres (r : pres) : val :=
   match r with
   | PErr e => VErr e
-  | POk rows => VList (map (fun r => VList [vq (r_shown r); VStr (r_tail r)]) rows)
+  | POk rows => VList (map (fun r => VList [vq (r_shown r); VStr (r_tail r); VList (map VStr (g7_candidates (r_shown r)))]) rows)
   end.
